@@ -11,15 +11,17 @@ def handle (case obs : List String) : String × String :=
   | none => bad
   | some (.enc c) =>
     let flag : UInt8 := if c.cfg.comp.isSome then 1 else 0
-    let expected := Spec.Framing.frames ((itemsOf c.evs).map (fun it =>
-      (flag, if c.cfg.comp.isSome then (tableCodec c.tab).cz .gzip it else it)))
-    let ds := obsData obs
+    -- the frames `Spec.Framing.frames` concatenates: flag, 4-byte big-endian length, payload, per message
+    let expected : List (UInt8 × Bytes) := (itemsOf c.evs).map (fun it =>
+      (flag, if c.cfg.comp.isSome then (tableCodec c.tab).cz .gzip it else it))
+    let sp := splitChunks obs
+    let ds := sp.map (·.1)
     (encColumn c obs,
      verdict [("no-panic", !obs.any isBad), ("no-lost-wakeup", noLostWakeup obs),
-              ("bytes-are-spec-framing-of-messages", eqConcat ds expected),
+              ("bytes-are-spec-framing-of-messages", eqFrames ds expected),
               ("no-empty-chunk", ds.all (fun d => !d.isEmpty)),
-              ("chunks-are-whole-frames", ds.all (fun d => (Spec.Framing.split d).2.isEmpty)),
-              ("batching-contract", batchingOk c obs)])
+              ("chunks-are-whole-frames", sp.all (fun d => d.2.2.isEmpty)),
+              ("batching-contract", batchingOkSplit c sp)])
   | some (.dec c) =>
     let (frs, left) := Spec.Framing.split (dataOf c.evs)
     -- each frame's payload (decompressed by the reference decompressor) read by the case's message
